@@ -100,6 +100,18 @@ def explore_handlers(r, rnd, n, stdlib):
                 project[q] = ws["files"][p]
             if not project:
                 continue
+            # a fixed override pair in every workspace: a test module overrides a conftest fixture under the same
+            # name, requests the parent through the same-named parameter, annotates another return type, and the
+            # same name is requested again below (what each occurrence denotes depends on its POSITION)
+            h2dir = os.path.join(root, "h2pkg")
+            os.makedirs(h2dir, exist_ok=True)
+            rets = rnd.sample(["int", "str", "dict", "Settings"], 2)
+            h2files = {os.path.join(h2dir, "conftest.py"): "import pytest\n\n@pytest.fixture\ndef h2_val() -> %s:\n    \"\"\"the parent\"\"\"\n    return 1\n" % rets[0],
+                       os.path.join(h2dir, "test_h2.py"): ("import pytest\n\ndef test_before(h2_val):\n    pass\n\n" if rnd.random() < 0.5 else "import pytest\n\n")
+                       + "@pytest.fixture\ndef h2_val(h2_val)%s:\n    return h2_val\n\ndef test_after(h2_val):\n    pass\n" % rnd.choice([" -> " + rets[1], ""])}
+            for q, tt in h2files.items():
+                open(q, "w").write(tt)
+                project[q] = tt
             # an installed plugin (venv entry point): its fixtures are third-party, resolvable, and no project symbols
             sp = os.path.join(root, ".venv", "lib", "python3.11", "site-packages")
             third_file = os.path.join(sp, "pytest_h2", "plugin.py")
@@ -279,7 +291,7 @@ def run(r):
     quick = r.tier == "quick"
     stdlib = set(core.tables()["stdlib_modules"])
     rnd = random.Random(r.seed * 7 + 5)
-    bad, stats, tags = explore_handlers(r, rnd, int(os.environ.get("VERIF_H2_WORKSPACES", 10 if quick else 120)), stdlib)
+    bad, stats, tags = explore_handlers(r, rnd, int(os.environ.get("VERIF_H2_WORKSPACES", 30 if quick else 150)), stdlib)
     seen = set()
     for b in bad:
         if b["why"] in seen:
